@@ -31,18 +31,24 @@ fn shift_temporal_string_with_duration(base: &str, parts: &DurationParts) -> Opt
     match temporal {
         TemporalValue::Date(date) => {
             let day_carry_from_nanos = parts.nanos / 86_400_000_000_000;
-            let shifted = add_months(date, parts.months)?.checked_add_signed(Duration::days(
-                parts.days.saturating_add(day_carry_from_nanos),
-            ))?;
+            let shifted = add_months(date, parts.months)?.checked_add_signed(
+                Duration::try_days(parts.days.saturating_add(day_carry_from_nanos))?,
+            )?;
             Some(shifted.format("%Y-%m-%d").to_string())
         }
         TemporalValue::LocalTime(time) => {
-            let total_nanos = parts.days.saturating_mul(86_400_000_000_000) + parts.nanos;
+            let total_nanos = parts
+                .days
+                .saturating_mul(86_400_000_000_000)
+                .saturating_add(parts.nanos);
             let shifted = shift_time_of_day(time, total_nanos)?;
             Some(format_time_literal(shifted, true))
         }
         TemporalValue::Time { time, offset } => {
-            let total_nanos = parts.days.saturating_mul(86_400_000_000_000) + parts.nanos;
+            let total_nanos = parts
+                .days
+                .saturating_mul(86_400_000_000_000)
+                .saturating_add(parts.nanos);
             let shifted = shift_time_of_day(time, total_nanos)?;
             Some(format!(
                 "{}{}",
@@ -54,7 +60,7 @@ fn shift_temporal_string_with_duration(base: &str, parts: &DurationParts) -> Opt
             let shifted_date = add_months(dt.date(), parts.months)?;
             let shifted = shifted_date
                 .and_time(dt.time())
-                .checked_add_signed(Duration::days(parts.days))?
+                .checked_add_signed(Duration::try_days(parts.days)?)?
                 .checked_add_signed(Duration::nanoseconds(parts.nanos))?;
             Some(format_datetime_literal(shifted, true))
         }
@@ -62,7 +68,7 @@ fn shift_temporal_string_with_duration(base: &str, parts: &DurationParts) -> Opt
             let shifted_date = add_months(dt.naive_local().date(), parts.months)?;
             let shifted_local = shifted_date
                 .and_time(dt.naive_local().time())
-                .checked_add_signed(Duration::days(parts.days))?
+                .checked_add_signed(Duration::try_days(parts.days)?)?
                 .checked_add_signed(Duration::nanoseconds(parts.nanos))?;
             let shifted = dt.offset().from_local_datetime(&shifted_local).single()?;
             Some(format_datetime_with_offset_literal(shifted, true))
